@@ -680,6 +680,56 @@ impl Scenario for C03TokenSoups {
 /// stack (process abort) nor amplify a few hundred bytes into gigabytes.
 pub struct C03Nesting;
 
+impl C03Nesting {
+    /// every file includes the next one k times: a tree of k^levels loads made of a handful of tiny files, at A2L
+    /// level or inside the A2ML block. Files may legitimately be included more than once (a shared header), so the
+    /// work allowance is 64 times the size of the tree; unbounded fan-out exceeds any allowance.
+    fn include_fanout(&self, cx: &mut Cx, fs: &std::rc::Rc<SimFs>, a2ml_level: bool) -> Result<(), Violation> {
+        let k = *cx.tape.pick(&[2usize, 2, 3]);
+        let levels = *cx.tape.pick(&[1usize, 3, 6, 10, 14, 18, 22, 26, 31]);
+        let ext = if a2ml_level { "aml" } else { "a2l" };
+        let quoted = cx.tape.chance(1, 2);
+        let q = if quoted { "\"" } else { "" };
+        let mut total = 0usize;
+        for i in 0..levels {
+            let mut t = String::new();
+            for _ in 0..k {
+                t.push_str(&format!("/include {q}f{}.{ext}{q}\n", i + 1));
+            }
+            total += t.len();
+            fs.put(&format!("/work/f{i}.{ext}"), t.as_bytes());
+        }
+        let leaf = if a2ml_level { "/* leaf */\n" } else { "/* leaf */ // nothing else\n" };
+        total += leaf.len();
+        fs.put(&format!("/work/f{levels}.{ext}"), leaf.as_bytes());
+        let main = if a2ml_level {
+            format!("ASAP2_VERSION 1 71\n/begin PROJECT p \"\"\n/begin MODULE m \"\"\n/begin A2ML\n/include {q}f0.aml{q}\nblock \"IF_DATA\" taggedunion {{ \"X\" int; }};\n/end A2ML\n/begin IF_DATA X 1 /end IF_DATA\n/end MODULE\n/end PROJECT\n")
+        } else {
+            format!("ASAP2_VERSION 1 71\n/begin PROJECT p \"\"\n/begin MODULE m \"\"\n/include {q}f0.a2l{q}\n/end MODULE\n/end PROJECT\n")
+        };
+        total += main.len();
+        fs.put("/work/fan.a2l", main.as_bytes());
+        fs.set_cycle_guard_limit(u32::MAX);
+        fs.begin_op(BTreeMap::new(), false);
+        let strict = cx.tape.chance(1, 2);
+        cx.event(&format!("include fan-out: {levels} levels, every file includes the next one {k} times ({} level), {total} bytes in {} files, strict={strict}", if a2ml_level { "A2ML" } else { "A2L" }, levels + 2));
+        if (k as f64).powi(levels as i32) >= 1e6 {
+            cx.probe("include-fanout>=10^6-loads");
+        }
+        let r = sut::load_path(cx, "totality", "/work/fan.a2l", None, strict, total * 64)?;
+        let outcome = match &r {
+            Ok((_, d)) if d.is_empty() => "Ok".to_string(),
+            Ok(_) => "Ok+diagnostics".to_string(),
+            Err(e) => sut::err_class(e),
+        };
+        cx.event(&format!("-> {outcome}"));
+        cx.nontrivial = true;
+        cx.sig(&format!("fanout|{a2ml_level}|{k}|{}|{strict}|{outcome}", levels.min(15)));
+        SimFs::uninstall();
+        Ok(())
+    }
+}
+
 impl Scenario for C03Nesting {
     fn property(&self) -> &'static str {
         "C03"
@@ -690,8 +740,11 @@ impl Scenario for C03Nesting {
     fn run(&self, cx: &mut Cx) -> Result<(), Violation> {
         let fs = SimFs::new("/work", cx.tape.draw_u64());
         fs.install();
-        let shape = cx.tape.draw(9);
+        let shape = cx.tape.draw(11);
         let depth = *cx.tape.pick(&[3usize, 20, 100, 130, 300, 2_000, 20_000, 150_000]);
+        if shape >= 9 {
+            return self.include_fanout(cx, &fs, shape == 10);
+        }
         let mut a2ml = String::new();
         let mut ifdata = String::new();
         let shape_name;
